@@ -144,3 +144,20 @@ package statuschecker
 //@   ensures[update-follows-the-agglayer] (action.action == InitialStatusActionUpdateCurrentCert && result == nil) ==> localCert.Status == action.cert.Status && savedCount == old(savedCount) && (old(localCert.Status) != action.cert.Status ==> storedStatus == upd(old(storedStatus), localCert.CertificateID, action.cert.Status))
 //@   ensures[insert-saves-the-agglayers-certificate] (action.action == InitialStatusActionInsertNewCert && result == nil && action.cert != nil) ==> savedCount == old(savedCount) + 1 && lastSaved.Height == action.cert.Height && lastSaved.CertificateID == action.cert.CertificateID && lastSaved.Status == action.cert.Status && lastSaved.NewLocalExitRoot == action.cert.NewLocalExitRoot
 //@   ensures[unknown-action-refused] (action.action != InitialStatusActionNone && action.action != InitialStatusActionUpdateCurrentCert && action.action != InitialStatusActionInsertNewCert) ==> result != nil && savedCount == old(savedCount) && statusWrites == old(statusWrites)
+
+// what the reconciliation decides on: the Agglayer's latest settled and latest pending certificate of this network and
+// the store's last certificate (assumed boundaries, A8; aggLatestSettled / aggLatestPending are the Agglayer's answers)
+//@ ghost var aggLatestSettled *agglayertypes.CertificateHeader
+//@ ghost var aggLatestPending *agglayertypes.CertificateHeader
+//@ interface github.com/agglayer/aggkit/agglayer.AggLayerClientRecoveryQuerier.GetLatestSettledCertificateHeader (self, ctx, networkID)
+//@   modifies nothing
+//@   ensures result1 == nil ==> result0 == aggLatestSettled
+//@ interface github.com/agglayer/aggkit/agglayer.AggLayerClientRecoveryQuerier.GetLatestPendingCertificateHeader (self, ctx, networkID)
+//@   modifies nothing
+//@   ensures result1 == nil ==> result0 == aggLatestPending
+//@ func newInitialStatus
+//@   props C13
+//@   requires log != nil && storage != nil && aggLayerClient != nil
+//@   modifies nothing
+//@   ensures[error-means-nothing] result1 != nil ==> result0 == nil
+//@   ensures[decides-on-the-three-current-records] result1 == nil ==> result0 != nil && result0.SettledCert == aggLatestSettled && result0.PendingCert == aggLatestPending && result0.LocalCert == storedLastCert && result0.log != nil
